@@ -3,7 +3,7 @@
    products are assembled from.  Part 2 (distributed, composed with the halo exchange of C03) is in
    Dist/ParSpmvProofs.v and stated below once available.
    dot_row dn x n = sum_{c<n} dn c * x_c. *)
-From Raptor Require Import Base.Sums Sparse.Defs Sparse.ConvertProofs Sparse.SpmvProofs Dist.Comm Dist.CommProofs Dist.ParMat Dist.ParSpmvProofs Dist.ParSpmvTProofs Sparse.Block Sparse.BlockProofs Dist.Tap Dist.TapProofs Dist.TapSpmvProofs.
+From Raptor Require Import Base.Sums Sparse.Defs Sparse.ConvertProofs Sparse.SpmvProofs Dist.Comm Dist.CommProofs Dist.ParMat Dist.ParSpmvProofs Dist.ParSpmvTProofs Sparse.Block Sparse.BlockProofs Dist.Tap Dist.TapProofs Dist.TapSpmvProofs Sparse.CooDedupProofs Dist.AssembleProofs.
 
 Section C02.
 Variable F : Type.
@@ -187,6 +187,14 @@ Proof.
   - exact (block_spmv_kernels F zero one add mul sub opp Fth br bc A x b H).
 Qed.
 
+(* what a rank holds after assembly (ParCOOMatrix::add_global_value for its rows, finalize, to_ParCSR) is its rows of the
+   matrix described by the triples the user added (duplicates summed; values below zero_tol are not inserted): the
+   `rank_state`s the distributed theorems above quantify over include every assembled matrix *)
+Theorem C02_assembly_represents_triples (small : F -> bool) (trip : list (ent F)) fr nr fc nc li j : li < nr ->
+  gden_row F zero add (assemble F add small trip fr nr fc nc) li j
+  = den_ents F zero add (filter (fun e => negb (small (eval e))) trip) (fr + li) j.
+Proof. exact (gden_assemble F zero one add mul sub opp Fth small trip fr nr fc nc li j). Qed.
+
 End C02.
 
 Print Assumptions C02_coo_kernels.
@@ -198,3 +206,4 @@ Print Assumptions C02_distributed_mult_T_is_global_transpose_product.
 Print Assumptions C02_block_kernels.
 Print Assumptions C02_tap_products_are_global_products.
 Print Assumptions C02_tap_mult_T_is_global_transpose_product.
+Print Assumptions C02_assembly_represents_triples.
